@@ -155,6 +155,14 @@ let () =
       done;
       Buffer.contents buf
     | _ -> "bad-args");
+  (* the serialised worksheet: rows holding at least one cell with content, as row:col,col,... *)
+  reg "sheet.xml" (fun a ->
+      let sh = Model_gen.run (List.map parse_op a) empty_sheet in
+      let rows = List.filter_map (fun r ->
+        let cs = List.filter has_value r.r_cells in
+        if cs = [] then None
+        else Some (string_of_z r.r_r ^ ":" ^ String.concat "," (List.map (fun c -> string_of_z c.c_col) cs))) (xml_rows sh) in
+      "xml " ^ String.concat ";" rows);
   reg "sheet.rows" (fun a ->
       let sh = Model_gen.run (List.map parse_op a) empty_sheet in
       let rows = get_rows (fun c -> c.c_v) sh in
